@@ -65,7 +65,7 @@ struct Tiff final : public Storage
     int start() noexcept;
     int stop() noexcept;
     int append(const struct VideoFrame* frames, size_t nbytes) noexcept;
-    void write_(uint64_t offset, void* buf, size_t nbytes) noexcept;
+    bool write_(uint64_t offset, void* buf, size_t nbytes) noexcept;
 
   private:
     void terminate_ifd_list() noexcept;
@@ -478,7 +478,10 @@ Tiff::start() noexcept
     CHECK(file_create(&file_, filename_.c_str(), filename_.length()));
     {
         const auto hdr = header();
-        write_(0, (void*)&hdr, sizeof(hdr));
+        if (!write_(0, (void*)&hdr, sizeof(hdr))) {
+            file_close(&file_);
+            goto Error;
+        }
         last_offset_ = sizeof(hdr);
     }
     LOG("TIFF: Streaming to \"%s\"", filename_.c_str());
@@ -490,7 +493,8 @@ Error:
 void
 Tiff::terminate_ifd_list() noexcept
 {
-    // zero out the last next offset.
+    // zero out the last next offset. Best effort: the file is closed next,
+    // whether or not this write succeeds.
     uint64_t data(0);
     write_(last_ifd_next_offset_, &data, sizeof(data));
 }
@@ -586,9 +590,10 @@ Tiff::append(const struct VideoFrame* frames, size_t nbytes) noexcept
             };
 
             // write
-            write_(section_ifd, &ifd, sizeof(ifd));
-            write_(section_data, (void*)cur->data, bytes_of_image);
-            write_(section_strings, ifd_strings_.data, ifd_strings_.size);
+            if (!write_(section_ifd, &ifd, sizeof(ifd)) ||
+                !write_(section_data, (void*)cur->data, bytes_of_image) ||
+                !write_(section_strings, ifd_strings_.data, ifd_strings_.size))
+                return 0; // the caller stops the device
 
             // update markers
             last_ifd_next_offset_ = section_ifd + offsetof(ifdN_t, next);
@@ -605,13 +610,15 @@ Tiff::append(const struct VideoFrame* frames, size_t nbytes) noexcept
     return 1;
 }
 
-void
+/// @returns true iff all of `buf` was written. A failure is reported to the
+///          caller, who is responsible for leaving the running state.
+bool
 Tiff::write_(uint64_t offset, void* buf, size_t nbytes) noexcept
 {
     CHECK(file_write(&file_, offset, (uint8_t*)buf, (uint8_t*)buf + nbytes));
-    return;
+    return true;
 Error:
-    stop();
+    return false;
 }
 
 enum DeviceState
